@@ -223,6 +223,24 @@ pub fn gen_registry_world(tape: &mut Tape, cfg: &RegGenCfg) -> World {
         modd.items.push(Item::new(Form::SideEffect, "./gone.ts"));
       }
       files.insert("/mod.ts".to_string(), modd);
+      let embed = if cfg.allow_embed {
+        *tape.pick(
+          Stream::World,
+          &[Embed::None, Embed::V2, Embed::V2, Embed::V1],
+        )
+      } else {
+        Embed::None
+      };
+      if embed == Embed::V1 {
+        // a version-1 manifest can only carry `@deno-types`
+        for d in files.values_mut() {
+          for it in &mut d.items {
+            if let Some((ts_types, _)) = &mut it.types_pragma {
+              *ts_types = false;
+            }
+          }
+        }
+      }
       let exports = if has_util && tape.draw(Stream::World, 2) == 1 {
         let mut m = BTreeMap::new();
         m.insert(".".to_string(), "./mod.ts".to_string());
@@ -237,14 +255,6 @@ pub fn gen_registry_world(tape: &mut Tape, cfg: &RegGenCfg) -> World {
         Exports::Map(m)
       } else {
         Exports::Single("./mod.ts".to_string())
-      };
-      let embed = if cfg.allow_embed {
-        *tape.pick(
-          Stream::World,
-          &[Embed::None, Embed::V2, Embed::V2, Embed::V1],
-        )
-      } else {
-        Embed::None
       };
       let mut pv = PkgVersion {
         yanked,
@@ -459,4 +469,35 @@ pub fn add_remote_lockfile(tape: &mut Tape, w: &mut World) {
       _ => {}
     }
   }
+}
+
+/// Remove the lockfile and the corrupt cache copies that only exist to make
+/// checksum retries meaningful.
+pub fn strip_lockfile(w: &mut World) {
+  w.lockfile = Default::default();
+  w.cache.retain(|k, v| v.is_none() || k.ends_with("/meta.json"));
+}
+
+/// After descriptions of registry files were rewritten (e.g. by the
+/// same-attribute proviso), re-publish the registry so that manifests,
+/// checksums and embedded module info match the files again.
+pub fn resync_registry(w: &mut World) {
+  if w.registry.packages.is_empty() {
+    return;
+  }
+  let mut reg = w.registry.clone();
+  for (name, pkg) in reg.packages.iter_mut() {
+    for (v, pv) in pkg.versions.iter_mut() {
+      for (path, d) in pv.files.iter_mut() {
+        let url = format!("{}{}/{}{}", REGISTRY, name, v, path);
+        if let Some(cur) = w.descs.get(&url) {
+          let mut nd = cur.clone();
+          nd.url = String::new();
+          *d = nd;
+        }
+      }
+    }
+  }
+  w.registry = reg;
+  w.render_registry(&embed_info);
 }
